@@ -238,6 +238,14 @@ def tagpath(world, t, depth=0):
             if callee_name(name) in BYTE_VIEWS and t[2]:
                 t = t[2][0]
                 continue
+            # `map.get(&Tag::X)` is the checked form of `map[&Tag::X]`; ok_or / ok_or_else / map_err only change the error of a failed lookup or read
+            if callee_name(name) == "get" and len(t[2]) == 2 and tag_of(t[2][1]) and ("HashMap" in name or "BTreeMap" in name):
+                tags.append(tag_of(t[2][1]))
+                t = t[2][0]
+                continue
+            if callee_name(name) in ("ok_or", "ok_or_else", "map_err", "context") and t[2] and ("option::Option" in name or "result::Result" in name):
+                t = t[2][0]
+                continue
             break
         if t[0] in ("vfield", "reader"):
             t = t[1]
@@ -842,6 +850,18 @@ def bytelen(W, ev, t, depth=0):
         init = W.obj_init(t)
         if isinstance(init, tuple) and init[0] == "repeat":
             return bytelen(W, ev, init, depth + 1)
+        # `let mut v = vec![0u8; n]; fill(&mut v)`: a vector created with n elements and afterwards only written in place keeps its length
+        oev = ev if getattr(ev, "fn", None) is not None and ev.fn.path == t[1] else W.ev(t[1])
+        inits = oev.obj_init(t[2])
+        if len(inits) == 1 and is_call(inits[0][1]) and callee_name(inits[0][1][1]) == "from_elem" and len(inits[0][1][2]) == 2:
+            fn0 = oev.fn
+            INPLACE = ("fill", "try_fill", "fill_bytes", "try_fill_bytes", "as_mut_slice", "as_mut", "deref_mut", "index_mut", "iter_mut", "copy_from_slice", "clone_from_slice",
+                       "swap", "reverse", "sort", "sort_unstable", "read_exact", "borrow_mut", "get_mut", "first_mut", "last_mut", "split_at_mut", "chunks_mut")
+            for (b, callee, argi, ap) in oev.events_on(t[2]):
+                tys = fn0.blocks[b].term.get("arg_tys") or []
+                if argi < len(tys) and tys[argi].startswith("&mut") and callee_name(callee) not in INPLACE:
+                    return None
+            return intval(W, oev, oev.resolve(inits[0][1][2][1]) if hasattr(oev, "resolve") else inits[0][1][2][1])
         return None
     if k == "phi":
         ls = {bytelen(W, ev, a, depth + 1) for a in t[1]}
@@ -1616,3 +1636,34 @@ def closure_env_terms(W, cpath):
                     out[("field", ("param", cpath, 1), str(i))] = W.expand(u)
                     out[("field", ("obj", cpath, 1), str(i))] = W.expand(u)     # a by-value environment that the closure mutates
     return out
+
+
+def counted_trips(W, ev, fn, L):
+    """Trip count of a counter-driven loop (Fn.counted_loop) as (init term, bound term, count) where count(f) evaluates the number of times the
+    body is entered given f: term -> int | None.  None when the loop is not of that shape or the test does not bound the counter in its direction."""
+    cl = fn.counted_loop(L)
+    if cl is None:
+        return None
+    ib, ii = cl["init"]
+    init = W.expand(ev.rvalue(fn.blocks[ib].stmts[ii]["rv"], (ib, ii)))
+    bound = W.expand(ev.op(cl["bound"], (cl["test"], len(fn.blocks[cl["test"]].stmts))))
+    op = cl["cmp"]
+    if not cl["stay_when_true"]:
+        op = {"Lt": "Ge", "Le": "Gt", "Gt": "Le", "Ge": "Lt", "Ne": "Eq", "Eq": "Ne"}[op]
+    # op is now the condition `counter <op> bound` under which the loop goes on
+    step = cl["step"]
+    if (step, op) not in ((1, "Lt"), (1, "Le"), (1, "Ne"), (-1, "Gt"), (-1, "Ge"), (-1, "Ne")):
+        return None
+
+    def count(f):
+        i, b = f(init), f(bound)
+        if i is None or b is None:
+            return None
+        if step == 1:
+            if op == "Ne" and i > b:
+                return None
+            return max(b - i + (1 if op == "Le" else 0), 0)
+        if op == "Ne" and i < b:
+            return None
+        return max(i - b + (1 if op == "Ge" else 0), 0)
+    return {"init": init, "bound": bound, "count": count, "step": step, "op": op, "info": cl}
